@@ -27,8 +27,40 @@ class Verdict:
     detail: str = ""
 
 
-def to_smt2(ob: Obligation, ground_only: bool = False) -> str:
+@dataclass
+class ObRec:
+    """An obligation as plain data (SMT-LIB text + metadata): what a symbolic-execution child process hands back."""
+    name: str
+    kind: str
+    path_id: int
+    line: int | None
+    cover: bool
+    inputs: list
+    trace: str
+    smt2: str | None          # None: the goal simplified to true
+    smt2_ground: str | None   # quantifier-free slice (string obligations only)
+    has_assumptions: bool = False
+
+
+def to_records(obligations) -> list:
+    out = []
+    for ob in obligations:
+        if isinstance(ob, ObRec):
+            out.append(ob)
+            continue
+        if not ob.cover and z3.is_true(ob.goal):
+            out.append(ObRec(ob.name, ob.kind, ob.path_id, ob.line, False, list(ob.inputs), getattr(ob, "trace", ""), None, None, bool(ob.assumptions)))
+            continue
+        full = to_smt2(ob)
+        ground = to_smt2(ob, ground_only=True) if (not ob.cover and ("String" in full or "str." in full)) else None
+        out.append(ObRec(ob.name, ob.kind, ob.path_id, ob.line, ob.cover, list(ob.inputs), getattr(ob, "trace", ""), full, ground, bool(ob.assumptions)))
+    return out
+
+
+def to_smt2(ob, ground_only: bool = False) -> str:
     """ground_only: keep only the quantifier-free assumptions (a weaker hypothesis: `unsat` is still a proof)."""
+    if isinstance(ob, ObRec):
+        return (ob.smt2_ground if ground_only else ob.smt2) or ""
     from .core import _has_quant
 
     s = z3.Solver()
@@ -233,13 +265,11 @@ def solve_one(job):
 
 def discharge(obligations: list[Obligation], timeout_ms=10000, procs=None, use_cvc5=True) -> list[Verdict]:
     jobs = []
-    for ob in obligations:
-        if not ob.cover and z3.is_true(ob.goal):
+    for ob in to_records(obligations):
+        if ob.smt2 is None:
             jobs.append((ob.name, None, timeout_ms, ob.inputs, False, ob.kind, ob.path_id, ob.line, use_cvc5))
         else:
-            full = to_smt2(ob)
-            ground = to_smt2(ob, ground_only=True) if (not ob.cover and ("String" in full or "str." in full)) else None
-            jobs.append((ob.name, full, timeout_ms, ob.inputs, ob.cover, ob.kind, ob.path_id, ob.line, use_cvc5, ground))
+            jobs.append((ob.name, ob.smt2, timeout_ms, ob.inputs, ob.cover, ob.kind, ob.path_id, ob.line, use_cvc5, ob.smt2_ground))
     procs = procs or min(16, os.cpu_count() or 4)
     if len(jobs) <= 2 or procs == 1:
         return [solve_one(j) for j in jobs]
